@@ -90,11 +90,11 @@ var epNames17 = []string{"ValidateData(JSON)", "ValidateData(YAML)", "ValidateFi
 
 // DEFECT-PENDING(json-path-url): ValidateFile hands "file://"+path to the schema library as a URL reference; a '#', '+' or %xx in
 // the path of a .json file makes it open another (or no) file.  notes/audit/DEFECT-C17-json-path-url.md.  Off: such paths are not generated.
-const defectPendingJSONPathURL = false
+const defectPendingJSONPathURL = true // repaired: D21
 
 // DEFECT-PENDING(flow-yaml): ValidateData takes every text starting with '{' for JSON; a YAML flow mapping is refused by every
 // real schema.  notes/audit/DEFECT-C17-flow-yaml.md.  Off: the flow-style route is not run.
-const defectPendingFlowYAML = false
+const defectPendingFlowYAML = true // repaired: D22
 
 // names for the file that holds JSON under a name not ending in ".json" (the extension test is exact and case-sensitive)
 var otherNames17 = []string{"doc.txt", "DOC.JSON", "doc", "doc.yml", "doc.json.bak", "doc.Json", "doc.json ", ".json.d"}
